@@ -358,7 +358,9 @@ def close(R, RID='C15.close', rearm=True):
                  func=c.func, node=s)
             continue
         n = [m for m in gc.live_nodes() if m.ast is s][0]
-        R.ob(RID, 'close time is the session time', U(v) == 'self.session.session_time', 'sent_close_time = %s' % U(v),
+        from .common import otext_full
+        R.ob(RID, 'close time is the session time', 'self.session.session_time' in (U(v), otext_full(R, gc, n, v)),
+             'sent_close_time = %s' % U(v),
              func=gq, node=s)
         lits = {(t_, p) for (t_, p, _) in guards_of(gc, n)}
         ok = ('self.state.closing', False) in lits or ('self.is_closing', False) in lits
